@@ -769,8 +769,10 @@ impl Blockchain {
     }
 
     async fn add_block_transactions_back(&mut self, mempool: &mut Mempool, block: &mut Block) {
-        let wallet = mempool.wallet_lock.read().await;
-        let public_key = wallet.public_key;
+        let public_key = {
+            let wallet = mempool.wallet_lock.read().await;
+            wallet.public_key
+        };
         if block.creator == public_key {
             let transactions = &mut block.transactions;
             let prev_count = transactions.len();
@@ -794,6 +796,9 @@ impl Blockchain {
             for tx in transactions {
                 mempool.transactions.insert(tx.signature, tx);
             }
+            // the transactions bypassed add_transaction() : their inputs have to be
+            // reserved again and their routing work counted
+            mempool.recalculate_indices();
             mempool.new_tx_added = true;
         }
     }
